@@ -168,6 +168,56 @@ def run(ctx: Ctx) -> None:
                                "alone": ref[j], "concurrently": got[j], "delays": {f"{a}:{b}": d for (a, b), d in S.SCHEDULE.items() if d}}, key="concurrent-evaluations")
                 break
 
+    # ---- the library's own injection helper with a context-local data provider: evaluations for different formats at once -------------------
+    import contextvars
+    import inject
+    from efoli import EdifactFormat
+    from ahbicht.content_evaluation.evaluationdatatypes import EvaluatableData
+    from ahbicht.content_evaluation.evaluator_factory import create_and_inject_hardcoded_evaluators
+    data_var: contextvars.ContextVar = contextvars.ContextVar("vf_evaluatable_data")
+    hard = evalenv.make_cer(rc={"1": "F", "2": "U"}, hints={"501": "Hinweis"}, fc={"901": True})
+
+    def fresh_injection():
+        inject.clear()
+        create_and_inject_hardcoded_evaluators(hard, evaluatable_data_provider=data_var.get, edifact_format=evalenv.FMT, edifact_format_version=evalenv.FV)
+
+    async def fmt_job(fmt, delay):
+        for _ in range(delay):
+            await asyncio.sleep(0)
+        data_var.set(EvaluatableData(body={}, edifact_format=fmt, edifact_format_version=evalenv.FV))
+        try:
+            tree = await parse_expression_including_unresolved_subexpressions("Muss [1] U [501] Soll [2][901]")
+            r = await evaluate_ahb_expression_tree(tree)
+            return (str(r.requirement_indicator.value), repr(r.requirement_constraint_evaluation_result.requirement_constraints_fulfilled))
+        except BaseException as e:  # pylint:disable=broad-except
+            return ("raises", type(e).__name__)
+
+    async def fmt_alone(fmt):
+        return await asyncio.create_task(fmt_job(fmt, 0))
+
+    async def fmt_together(fmts, delays):
+        return await asyncio.gather(*[fmt_job(f, d) for f, d in zip(fmts, delays)])
+
+    try:
+        fmts = [evalenv.FMT, EdifactFormat.MSCONS, evalenv.FMT]
+        ref = []
+        for f in fmts:
+            fresh_injection()
+            ref.append(asyncio.run(fmt_alone(f)))
+        for _ in range(ctx.pick(12, 60)):
+            delays = [rng.randint(0, 4) for _ in fmts]
+            order = list(range(len(fmts)))
+            rng.shuffle(order)
+            fresh_injection()
+            got = asyncio.run(fmt_together([fmts[i] for i in order], [delays[i] for i in order]))
+            ctx.case(("formats", tuple(order), tuple(delays)))
+            if got != [ref[i] for i in order]:
+                ctx.violation("concurrent evaluations injected through create_and_inject_hardcoded_evaluators with a context-local data provider do not each see their own data",
+                              {"formats": [str(fmts[i]) for i in order], "start_delays": [delays[i] for i in order], "alone": [ref[i] for i in order], "concurrently": got}, key="formats-concurrent")
+                break
+    finally:
+        S.configure()
+
     # ---- concurrent evaluations taking their data from context-local storage ----------------------------------
     from ahbicht.content_evaluation import is_valid_expression
     for s in ["Muss [1] U [2]", "Muss [1] O [501]", "Muss [983][1] X [984][2]", "Muss ([1] O [2]) U [3][901]", "Soll [1] X [2] Kann [3]"]:
